@@ -142,6 +142,6 @@ def run(tier, seed):
         'NaN payload bits are not compared (NaN matches NaN)',
     ]
     common.write_evidence(PID, tier, seed, 'translation_validation', cov, assumptions, time.time() - t0, len(violations))
-    if machinery_bad:
-        return 2
-    return 1 if violations else 0
+    if violations:
+        return 1
+    return 2 if machinery_bad else 0
